@@ -306,6 +306,10 @@ def canon(t, depth=0):
             return "len(%s)" % canon(t[2], d)
         return "%s(%s)" % (t[1], canon(t[2], d))
     if tag == "cast":
+        inner = t[2]
+        if _INT_TY.match(str(t[3])) and isinstance(inner, tuple) and inner and inner[0] == "cast" and _INT_TY.match(str(inner[3])) and _is_bool_term(inner[2]):
+            # a truth value is 0 or 1 in every integer type: `b as i32 as i64` reads as `b as i64`
+            return "(%s as %s)" % (canon(inner[2], d), t[3])
         return "(%s as %s)" % (canon(t[2], d), t[3])
     if tag == "discr":
         return "discr(%s)" % canon(t[1], d)
@@ -319,6 +323,10 @@ def canon(t, depth=0):
         if t[1] == "<I as std::iter::IntoIterator>::into_iter" and len(t[2]) == 1:
             # the blanket impl for iterators is the identity: `for x in it` and `while let Some(x) = it.next()` read alike
             return canon(t[2][0], d)
+        mfb = _FROM_BOOL.match(t[1]) if isinstance(t[1], str) else None
+        if mfb and len(t[2]) == 1:
+            # `i64::from(b)` for a bool is the cast `b as i64`
+            return "(%s as %s)" % (canon(t[2][0], d), mfb.group(1) or mfb.group(2))
         sn = short(t[1])
         if sn in ("Option::expect", "Result::expect", "Result::expect_err") and len(t[2]) == 2:
             # the panic message is documentation, not behaviour
@@ -337,6 +345,14 @@ def canon(t, depth=0):
     if tag == "unknown":
         return "?%s" % t[1]
     return str(t)
+
+
+_INT_TY = re.compile(r"^[iu](8|16|32|64|128|size)$")
+_FROM_BOOL = re.compile(r"^(?:<([iu](?:8|16|32|64|128|size)) as std::convert::From<bool>>::from|std::convert::num::<impl std::convert::From<bool> for ([iu](?:8|16|32|64|128|size))>::from)$")
+
+
+def _is_bool_term(t):
+    return isinstance(t, tuple) and bool(t) and ((t[0] == "bin" and t[1] in ("Eq", "Ne", "Lt", "Le", "Gt", "Ge")) or (t[0] == "un" and t[1] == "Not" and _is_bool_term(t[2])))
 
 
 _SHORT_RE = re.compile(r"^<(.+) as (.+)>::(\w+)$")
